@@ -49,4 +49,10 @@ CLAIMED["C13"] = (
     "each recorded row is compared field by field with what the step really saw; executions with and without recording must be bit-identical.",
     ASYNC_NOTE, "DESIGN.md §4 C13",
 )
+CLAIMED["C07"] = (
+    PBT + ": validity predicate over Graph.timings (existence, uniqueness, completeness w.r.t. an own dependency/ancestor computation, (partition, generation) order, window model)",
+    "Independently generated computation graphs (ties, ragged multi-episode stacks, unreceived messages, long vertices) x supergraph mode x prune x initial supergraph; "
+    "the compiled schedule is validated against a reference windowing and ancestor computation that shares no code with rex.",
+    "compiled schedule only (execution is C08/C09/C01); external supergraph library trusted only through rex; <=4 nodes, <=9 steps, <=3 episodes", "DESIGN.md §4 C07",
+)
 NOT_APPLICABLE = {}
